@@ -19,8 +19,9 @@ def dotted(node):
 
 
 class Module:
-    def __init__(self, name, path, src):
+    def __init__(self, name, path, src, root=REPO):
         self.name = name
+        self.root = root
         self.path = path
         self.src = src
         self.tree = ast.parse(src, filename=path)
@@ -31,7 +32,7 @@ class Module:
 
     @property
     def rel(self):
-        return os.path.relpath(self.path, REPO)
+        return os.path.relpath(self.path, self.root)
 
 
 class Cls:
@@ -187,7 +188,7 @@ class DB:
                 with open(path, encoding="utf-8") as fh:
                     src = fh.read()
                 try:
-                    m = Module(rel, path, src)
+                    m = Module(rel, path, src, repo)
                 except SyntaxError as e:
                     raise AnalysisError("cannot parse %s: %s" % (path, e))
                 self.modules[rel] = m
